@@ -196,7 +196,7 @@ pub fn run(ctx: &mut Ctx) {
         let key: Vec<u8> = (1..=n as u8).collect();
         rc4_cases.push((key, if quick { 272 } else { 1040 }, "rc4_rfc6229_key"));
     }
-    rc4_cases.push((Vec::new(), 40, "rc4_empty_key"));
+    rc4_cases.push((Vec::new(), 40, "outside-domain:rc4_empty_key"));
     for n in 1..=64usize { rc4_cases.push((rng.bytes(n), rng.range(0, 80) as usize, "rc4_keylen_1_64")); }
     for len in [0usize, 1, 255, 256, 257, 1023, 1024, 1025] { let n = rng.range(1, 64) as usize; rc4_cases.push((rng.bytes(n), len, "rc4_random")); }
     rc4_cases.push((rng.bytes(20), long_len(if quick { 3000 } else { 70000 }), "rc4_long"));
